@@ -486,7 +486,54 @@ def finish_case(case):
     return case
 
 
+def post_rescaling_update_guard(ctx):
+    """`post_rescaling` 'logit' / 'log' x `update_bounds` (left at its default, True, False): the combination is either refused at
+    construction or the object is an exact bijection on the interior of the whole prior box ALSO after `update()` on live points
+    that do not reach the prior bounds (seeded change C07-iA: the guard 'Cannot use log or logit with update bounds' read the
+    class default of `_update` because the assignment had moved below it — the combination was accepted and gave NaN for
+    prior-box points outside the live range)."""
+    from nessai.reparameterisations import RescaleToBounds
+    from nessai.livepoint import empty_structured_array, numpy_array_to_live_points
+    for post in ("logit", "log"):
+        for ub in (None, True, False):
+            for lo, hi in ((1.0, 5.0), (-2.0, 0.5)):
+                kw = dict(parameters=["p0"], prior_bounds={"p0": [lo, hi]}, post_rescaling=post, rescale_bounds=[0.0, 1.0])
+                if ub is not None:
+                    kw["update_bounds"] = ub
+                case = dict(layer="transcendental", kind="post-rescaling-guard", kwargs={k: v for k, v in kw.items() if k != "parameters"})
+                key = ("post-rescaling-guard", post, ub, lo)
+                try:
+                    r = RescaleToBounds(**kw)
+                except (ValueError, RuntimeError) as e:
+                    ctx.case(key, True, dict(case, rejected=str(e)[:80]), kind="post-rescaling-guard:rejected-at-construction")
+                    continue
+                w = hi - lo
+                try:
+                    live = numpy_array_to_live_points(np.array([[lo + 0.4 * w], [lo + 0.5 * w], [lo + 0.6 * w]]), ["p0"])
+                    r.update(live)
+                    vals = np.array([lo + f * w for f in (0.0625, 0.25, 0.5, 0.75, 0.9375)])
+                    pts = numpy_array_to_live_points(vals[:, None], ["p0"])
+                    with np.errstate(all="ignore"):
+                        xp = empty_structured_array(pts.size, names=list(r.prime_parameters))
+                        _, xp1, lj = r.reparameterise(pts.copy(), xp, np.zeros(pts.size))
+                        xin = empty_structured_array(pts.size, names=["p0"])
+                        x2, _, lji = r.inverse_reparameterise(xin, xp1.copy(), np.zeros(pts.size))
+                    pv = np.asarray(xp1[r.prime_parameters[0]], dtype=float)
+                    ok = (np.isfinite(pv).all() and np.isfinite(lj).all() and np.isfinite(lji).all()
+                          and np.allclose(np.asarray(x2["p0"], dtype=float), vals, rtol=1e-12, atol=1e-12)
+                          and np.allclose(np.asarray(lj) + np.asarray(lji), 0.0, atol=1e-9))
+                    what = (f"x'={pv.tolist()}, log_J={np.asarray(lj).tolist()}, round trip={np.asarray(x2['p0'], dtype=float).tolist()}")
+                except Exception as e:  # noqa
+                    ok, what = False, f"{type(e).__name__}: {e}"
+                if not ok:
+                    ctx.oracle_fail("RescaleToBounds:post_rescaling+update_bounds:accepted-but-not-a-bijection-after-update",
+                                    f"post_rescaling={post!r}, update_bounds={'default' if ub is None else ub}, prior [{lo}, {hi}], accepted at "
+                                    f"construction; after update() on live points in the middle of the box, interior prior points give {what}", case)
+                ctx.case(key, True, case, kind="post-rescaling-guard:accepted")
+
+
 def transcendental(ctx, rng):
+    post_rescaling_update_guard(ctx)
     for gen in (rtb_transcendental, angle_cases, to_cartesian_cases, angle_pair_cases, gw_cases):
         for case in gen(ctx, rng):
             oracle(ctx, finish_case(case), rng)
